@@ -8,8 +8,8 @@ package mresults
 //
 //verif:pkg pkg/segment/results/mresults
 //verif:entry VerifC09GroupByLabel conf=6
-//verif:bound a series id m{...} carrying any subset of the labels vhost, path, host, h (in that order), each with a free one-letter value over {a, b}; aggregation by (host), by (h), without (host) or without (h); getAggSeriesId
-//verif:outside label values containing ',' ':' or '{' (the series-id text format itself is ambiguous there, like the TSID serialisation), several group-by labels, the numeric aggregation of the grouped series (VerifC09ReduceAcrossSeries)
+//verif:bound a series id m{...} carrying any subset of the labels vhost, path, host, h (in that order), each with a free one-character value over {a, b, '{'} (a brace as in a route label /users/{id}); aggregation by (host), by (h), without (host) or without (h); getAggSeriesId
+//verif:outside label values containing ',' or ':' (the series-id text format itself is ambiguous there, like the TSID serialisation), several group-by labels, the numeric aggregation of the grouped series (VerifC09ReduceAcrossSeries)
 
 import (
 	"github.com/siglens/siglens/pkg/segment/structs"
@@ -27,7 +27,7 @@ func VerifC09GroupByLabel() {
 		if !present[i] {
 			continue
 		}
-		values[i] = string([]byte{zz.ByteIn(zz.Name("value_", i), "ab")})
+		values[i] = string([]byte{zz.ByteIn(zz.Name("value_", i), "ab{")})
 		if !first {
 			seriesId += ","
 		}
